@@ -835,7 +835,11 @@ class Session:
                     mech = "no_erdy_after_nrdy"
                     if M["erdy_blocked_by_nrdy"] >= H["nrdy_cycle"]:
                         mech = "erdy_request_lost_while_nrdy_is_sent"
+                    elif exp[i]["race"]:
+                        mech = "packet_stuck_when_last_word_accepted_in_ack_cycle"
                     self.violation(mech, "NRDY requested at %d, packet %d complete at %d, no ERDY until %d" % (H["nrdy_cycle"], i, exp[i]["t"], b.cycle))
+                    if exp[i]["race"]:
+                        raise GiveUp()
                     H["flow"] = False        # a host would eventually poll again on its own
                     return True
                 if deadline is None and (M["producer_done"] or b.cycle > budget):
